@@ -51,8 +51,9 @@ namespace riddle
                         return mk_token(EOF_ID);
                     }
             case '*': // in multi-line comment
+                ch = next_char();
                 while (true)
-                    switch (ch = next_char())
+                    switch (ch)
                     {
                     case '*':
                         if ((ch = next_char()) == '/')
@@ -60,7 +61,12 @@ namespace riddle
                             ch = next_char();
                             return next();
                         }
-                        break;
+                        break; // 'ch' is examined again: it might be another '*'..
+                    case -1:
+                        error("unterminated comment..");
+                        return nullptr;
+                    default:
+                        ch = next_char();
                     }
             }
             return mk_token(SLASH_ID);
